@@ -21,14 +21,17 @@ DEFECTS = ["strip-cop", "strip-lic", "drop-licence-text", "unused-text", "junk-t
 
 
 @st.composite
-def info(draw, idpool, allow_empty=False):
+def _info(draw, idpool, allow_empty=False, depth=1):
     cop = draw(st.lists(st.builds(V.notice, st.sampled_from(sorted(V.PREFIXES)), V.opt_year(), V.safe_holder()), min_size=0 if allow_empty else 1, max_size=2, unique=True))
-    lic = draw(st.lists(V.expression(1, st.sampled_from(idpool)), min_size=0 if allow_empty else 1, max_size=2, unique=True))
+    lic = draw(st.lists(V.expression(depth, st.sampled_from(idpool)), min_size=0 if allow_empty else 1, max_size=2, unique=True))
     return {"cop": cop, "lic": lic}
 
 
 @st.composite
-def project_state(draw, compliant_bias=True, max_files=7, git=None):
+def project_state(draw, compliant_bias=True, max_files=7, git=None, expr_depth=1):
+    def info(idpool, allow_empty=False):  # expression depth is fixed per project
+        return _info(idpool, allow_empty, expr_depth)
+
     cur = V.spdx_lists()[0]
     idpool = draw(st.lists(st.one_of(st.sampled_from(V.COMMON_IDS), st.sampled_from(cur), V.licenseref()), min_size=2, max_size=6, unique=True))
     idpool = [i for i in idpool if not i.endswith("+")]
